@@ -55,6 +55,7 @@ R1_FILES = [
 ]
 R2_FILES = [
     "a/a", "a/a.liquid", "a/b", "b", "b.liquid", "b.b", "ba", "a.b/a", ".a", "ab/a", "a.liquid/a",
+    ".a.liquid", "ab/b.liquid",          # also in T/a: choice loaders must take the first member's
 ]
 DECOYS_T = [
     "ab", "ba", "ab.liquid", "ab.b", "a.b", "a.liquid", "b.b", "b.liquid", ".a", "...liquid",
@@ -107,12 +108,12 @@ CONFIGS: list[tuple[str, str, Any, Any]] = [
     ("pkg[a]", "pkg", ["a"], ".liquid"),
     ("pkg[a,b].b", "pkg", ["a", "b"], ".b"),
     ("pkg[b,a]ext''", "pkg", ["b", "a"], ""),
-    ("choice[fsl[a].liquid,pkg[b].b]", "choice",
-     [("", "fsl", ["a"], ".liquid"), ("", "pkg", ["b"], ".b")], None),
+    ("choice[fsl[a].liquid,pkg[b]]", "choice",
+     [("", "fsl", ["a"], ".liquid"), ("", "pkg", ["b"], ".liquid")], None),
     ("choice[pkg[b],choice[fsl[a]]]", "choice",
      [("", "pkg", ["b"], ".liquid"), ("", "choice", [("", "fsl", ["a"], None)], None)], None),
-    ("cchoice[fsl[a],fsl[b].liquid]", "cchoice",
-     [("", "fsl", ["a"], None), ("", "fsl", ["b"], ".liquid")], None),
+    ("cchoice[fsl[b],fsl[a]]", "cchoice",
+     [("", "fsl", ["b"], None), ("", "fsl", ["a"], None)], None),
 ]
 
 
